@@ -43,7 +43,7 @@ func (a jsonMultiset) hashCode(metadata []Metadata) [8]byte {
 		h = append(h, v.hashCode(metadata))
 	}
 	sort.Sort(h)
-	b := make([]byte, 0, len(a)*8)
+	b := []byte{0x3C, 0xD1, 0x7A, 0x0E, 0xB6, 0x45, 0x92, 0xE8} // random bytes
 	for _, c := range h {
 		b = append(b, c[:]...)
 	}
